@@ -767,9 +767,9 @@ class CallMixin:
         base, _, field = loc.rpartition('.')
         o = self.ev_spec(base, env)
         h = self.st.heap[o.t]
-        spec = self.models.get(h.cls, {}).get('fields', {}).get(field)
-        if spec is None and base == 'self':
-            spec = (c.get('self_fields') or {}).get(field)
+        spec = (c.get('self_fields') or {}).get(field) if base == 'self' else None
+        if spec is None:
+            spec = self.models.get(h.cls, {}).get('fields', {}).get(field)
         if spec is None:
             if field in h.f:
                 h.f[field] = self.havoc_like(h.f[field], field)
